@@ -243,12 +243,14 @@ def harness(name, cfg, flavour, defines=(), link=()):
     with _Lock(exe + ".lock"):
         if os.path.exists(exe):
             return exe
-        # drop binaries of older harness versions
+        # drop binaries of older harness versions (only old ones: a concurrently running check may still be using a recent one)
         for f in os.listdir(d):
             if f.startswith(name + "-") and not f.endswith(".lock") and not f.startswith(os.path.basename(exe)) \
                     and f.split("-")[0] == name:
                 try:
-                    os.remove(os.path.join(d, f))
+                    fp = os.path.join(d, f)
+                    if time.time() - os.path.getmtime(fp) > 3600:
+                        os.remove(fp)
                 except OSError:
                     pass
         base = cxx_base(cfg, flavour) + ["-I" + HARNESS, "-Wall", "-Wno-unused"] + ["-D" + x for x in defines] \
